@@ -446,6 +446,24 @@ def c15(out):
     return new
 
 
+# ---- C10: names of the rules cfgrammar adds, and the two lexical regexes of the Yacc parser ----------
+def c10(out):
+    g = src("cfgrammar/src/lib/yacc/grammar.rs")
+    for n in ("START_RULE", "IMPLICIT_RULE", "IMPLICIT_START_RULE"):
+        m = re.search(r'const\s+%s\s*:\s*&str\s*=\s*"((?:[^"\\]|\\.)*)"\s*;' % n, g)
+        if not m:
+            raise SystemExit(f"extract: constant {n} not found in yacc/grammar.rs")
+        out.append(f"def YACC_{n} : List Nat := [" + ", ".join(str(ord(c)) for c in rust_str(m.group(1))) + "]")
+    yp = src("cfgrammar/src/lib/yacc/parser.rs")
+    for n in ("RE_NAME", "RE_TOKEN"):
+        m = re.search(r'static\s+%s\s*:\s*LazyLock<Regex>\s*=\s*LazyLock::new\(\|\|\s*Regex::new\((r?)"((?:[^"\\]|\\.)*)"\)' % n, yp, re.S)
+        if not m:
+            raise SystemExit(f"extract: regex {n} not found in yacc/parser.rs")
+        pat = m.group(2) if m.group(1) else rust_str(m.group(2))
+        out.append(f"def YACC_{n}_SRC : String := {lean_str(pat)}")
+    out.append("")
+
+
 def section(prop, fn, old_text, failures):
     """Run one property's extractor. Its output is framed by markers; when it fails (the source no
     longer has the expected shape) the previous block is kept, so that the Lean library still builds
@@ -477,6 +495,7 @@ def main():
             block.append(f"def {n} : Nat := {const(st, n, 'statetable.rs')}")
 
     out += section("BASE", base, old, failures)
+    out += section("C10", c10, old, failures)
     out += section("C11", c11, old, failures)
     out += section("C18", c18, old, failures)
     out += section("C20", lambda b: c20_guards(), old, failures)
